@@ -15,6 +15,7 @@
 
 //! Functions for partitioned rice coding (PRC).
 
+use super::arrayutils::find_max;
 use super::arrayutils::unaligned_map_and_update;
 use super::constant::rice::MAX_PARTITIONS as MAX_RICE_PARTITIONS;
 use super::constant::rice::MAX_PARTITION_ORDER as MAX_RICE_PARTITION_ORDER;
@@ -58,13 +59,21 @@ impl PrcBitTable {
             simd::u32x16::splat(offset as u32) + simd::u32x16::splat(errors.len() as u32) * INDEX1;
         let mut p_to_bits = ZEROS;
 
-        // MAX_P_TO_BITS is designed not to overflow after 16 times of addition.
-        //
-        // TODO: there's still a risk of overflow when there's a consecutive 16
-        // elements in `error` where all are larger than `1 << 28`. Since it's
-        // very low probability and clamping inputs may degrade the performance,
-        // this issue is ignored currently.
-        //
+        // The chunked accumulation below adds up to 16 elements between two
+        // clamps. It stays within `u32` only when every element is smaller
+        // than `1 << 27` (`(1 << 28) + 16 * (1 << 27) < (1 << 32)`). Larger
+        // errors, which only occur with residuals wider than 27 bits, are
+        // accumulated by the element-wise saturating loop.
+        if find_max::<64>(errors) >= (1u32 << 27) {
+            for e in errors {
+                p_to_bits += (simd::Simd::splat(*e) >> INDEX).simd_min(MAX_P_TO_BITS_VEC);
+                p_to_bits = p_to_bits.simd_min(MAX_P_TO_BITS_VEC);
+            }
+            p_to_bits += offset;
+            p_to_bits = p_to_bits.simd_min(MAX_P_TO_BITS_VEC);
+            return Self { p_to_bits };
+        }
+
         // In most of SIMD-capable CPUs, saturating ops can be done with a
         // single instruction. However, strangely the use of `saturating_add`
         // and removing `simd_min` from the loop actually slowed down the
@@ -111,8 +120,9 @@ impl PrcBitTable {
     #[inline]
     pub fn merge(&self, other: &Self, offset: usize) -> Self {
         let offset = simd::u32x16::splat(offset as u32);
+        // saturated so that `minimizer` can pack the value in 28 bits.
         Self {
-            p_to_bits: self.p_to_bits + other.p_to_bits - offset,
+            p_to_bits: (self.p_to_bits + other.p_to_bits - offset).simd_min(MAX_P_TO_BITS_VEC),
         }
     }
 }
